@@ -15,7 +15,7 @@ class Prop(BaseProp):
     budget = {"quick": 3200, "thorough": 1200000}
     must_see = ["empty_train", "one_spike_train", "spike_on_t_start", "spike_on_t_end", "shared_interior_spike",
                 "shared_spike_on_t_start", "shared_spike_on_t_end", "mrts_below_all_isis", "mrts_between_isis",
-                "mrts_above_all_isis", "one_spike_train_on_t_start", "one_spike_train_on_t_end"]
+                "mrts_above_all_isis", "one_spike_train_on_t_start", "one_spike_train_on_t_end", "history_probe", "src_W13"]
     must_contracts = ["inv:PieceWiseConstFunc"]
     arm_files = [("pyspike/cython/python_backend.py", ["isi_distance_python"])]
     assumptions = ["reference: exact rational evaluation of the statement (vp/ref.py isi_profile_ref)",
@@ -45,6 +45,33 @@ class Prop(BaseProp):
         ctx.close(d, avg, "isi-distance", "isi_distance vs exact average of the reference profile")
         if case["trains"][0] and case["trains"][0][-1] == case["te"] or case["trains"][1] and case["trains"][1][-1] == case["te"]:
             ctx.count("last_spike_on_t_end")
+        if ctx.evals % 3 == 0:
+            self.history_probes(case, ctx, prof, kw, xr, yr)
+
+    def history_probes(self, case, ctx, prof, kw, xr, yr):
+        """state must not leak between calls: (a) the returned object belongs to the caller - scribbling on it must not
+        change what the next call returns; (b) the same spike arrays on a different recording interval, evaluated right
+        after, must be judged on their own interval (a result cache keyed on the spikes alone would show)"""
+        ps = ctx.ps
+        ctx.count("history_probe")
+        st1, st2 = ctx.trains(case)
+        prof.y[:] = -7.0
+        prof.x[:] = prof.x[::-1].copy()
+        again = ctx.call(ps.isi_profile, st1, st2, _repeat=False, **kw)
+        if common.same_axis(ctx, again.x, xr, "isi:state-leak:returned-object-shared", "isi_profile after the caller modified the previously returned profile"):
+            common.arr_close(ctx, again.y, yr, "isi:state-leak:returned-object-shared", "isi_profile.y after the caller modified the previously returned profile")
+        ts, te = case["ts"], case["te"]
+        T = te - ts
+        ts2, te2 = ts - T / 4, te + T / 2
+        w1 = ps.SpikeTrain(np.array(case["trains"][0], dtype=float), [ts2, te2])
+        w2 = ps.SpikeTrain(np.array(case["trains"][1], dtype=float), [ts2, te2])
+        wide = ctx.call(ps.isi_profile, w1, w2, _repeat=False, **kw)
+        xw, yw = ref.isi_profile_ref(case["trains"][0], case["trains"][1], ts2, te2, kw.get("MRTS", 0) or 0)
+        if common.same_axis(ctx, wide.x, xw, "isi:state-leak:same-spikes-other-interval", "isi_profile of the same spike times on the wider interval [%r,%r]" % (ts2, te2)):
+            common.arr_close(ctx, wide.y, yw, "isi:state-leak:same-spikes-other-interval", "isi_profile.y on the wider interval")
+        d = ctx.call(ps.isi_distance, w1, w2, _repeat=False, **kw)
+        avg = sum(y * (b - a) for y, a, b in zip(yw, xw, xw[1:])) / (xw[-1] - xw[0])
+        ctx.close(d, avg, "isi:state-leak:same-spikes-other-interval", "isi_distance of the same spike times on the wider interval")
 
 
 PROP = Prop()
